@@ -53,11 +53,11 @@ def Disc (followOk : Bool) : Call → Prop
   | .dirNext fd => 0 ≤ fd
   | .gettid => True
   | .geteuid => True
-  | .fsopen fstype _ => fstype = b!"proc"
+  | .fsopen fstype flags => fstype = b!"proc" ∧ hasAll flags FSOPEN_CLOEXEC = true
   | .fsconfigSetString fd _ _ => 0 ≤ fd
   | .fsconfigCreate fd => 0 ≤ fd
-  | .fsmount fd _ _ => 0 ≤ fd
-  | .openTree dir path _ => dir = AT_FDCWD ∧ path = b!"/proc"
+  | .fsmount fd flags _ => 0 ≤ fd ∧ hasAll flags FSMOUNT_CLOEXEC = true
+  | .openTree dir path flags => dir = AT_FDCWD ∧ path = b!"/proc" ∧ hasAll flags OPEN_TREE_CLOEXEC = true
   | .readlinkAbs path => startsWith path b!"/proc/"
   | .readLine fd => 0 ≤ fd
   | .random => True
